@@ -610,7 +610,20 @@ func C01(p *core.Program, r *core.Report) {
 			ag := t10[k10]
 			r.Add("T10", k10, ag.pos, ag.ok, fmt.Sprintf("unless the entry was found to exist, it is created with make before the inner map is written (%d update sites after expansion)", ag.n), ag.wit...)
 		}
-		r.Add("T10", "updates of nested maps examined", "", nT10 >= 1, fmt.Sprintf("%d", nT10))
+		// vacuity guard: if the module has maps of maps at all, some update of one must have been seen
+		nestedMapTypes := 0
+		for _, f := range p.ModFunctions(false) {
+			for _, in := range instrsOf(f) {
+				if mk, ok := in.(*ssa.MakeMap); ok {
+					if mt, ok := mk.Type().Underlying().(*types.Map); ok {
+						if _, inner := mt.Elem().Underlying().(*types.Map); inner {
+							nestedMapTypes++
+						}
+					}
+				}
+			}
+		}
+		r.Add("T10", "updates of nested maps examined", "", nT10 >= 1 || nestedMapTypes == 0, fmt.Sprintf("%d updates; %d maps of maps made in the module", nT10, nestedMapTypes))
 	}
 
 	// ---- T2
